@@ -618,6 +618,7 @@ type located struct {
 	Attr    *spec.Attr
 	TFState string // "known", "null", "unknown", "absent", "" when no object was given
 	InElem  bool
+	Group   string // class of the whole oneof group when the path ends at a group
 }
 
 func trimIndex(seg string) (string, int) {
@@ -669,12 +670,17 @@ func locate(ms *spec.Msg, obj *types.Object, path string) located {
 		}
 		if strings.HasPrefix(seg, "oneof:") {
 			// next: "branch" / "value"; the branch cannot be told from the path: report the group's first attribute
+			var cls []string
 			for _, a := range ms.Attrs {
 				if a.Oneof != nil && "oneof:"+a.Oneof.Group == seg {
-					res.Attr = a
-					break
+					if res.Attr == nil || len(cls) == 0 {
+						res.Attr = a
+					}
+					cls = append(cls, strings.TrimPrefix(a.Class, "oneof "))
 				}
 			}
+			sort.Strings(cls)
+			res.Group = "oneof-group{" + strings.Join(cls, ",") + "}"
 			break
 		}
 		if strings.HasPrefix(seg, "k:") {
@@ -721,6 +727,9 @@ func classAt(ms *spec.Msg, path string) string {
 		return "?"
 	}
 	c := l.Attr.Class
+	if l.Group != "" {
+		c = l.Group
+	}
 	if l.InElem {
 		c += " (in element)"
 	}
